@@ -24,7 +24,7 @@ def run(ctx, out):
     quick = ctx.tier == "quick"
     sup = core.build_sup()
     d0 = ctx.work.fresh("c10")
-    out.rule = ("single regular files: modes covering all 12 permission bits (thorough: all 4096), mtimes past/future/sub-second, "
+    out.rule = ("single regular files (dense, and sparse with a hole in the middle / at the end / all hole): modes covering all 12 permission bits (thorough: all 4096), mtimes past/future/sub-second, "
                 "user xattr sets, uid/gid pairs (root), every combination of --no-perms/--no-timestamps/--ownership(/--fsync), "
                 "fresh and pre-existing destinations (other mode/owner/xattrs), both drivers, multi-block files with 4 workers "
                 "under random thread holds; plus trees of 8 files in which ONE best-effort xattr call is refused: every other file "
@@ -61,7 +61,17 @@ def run(ctx, out):
         d = os.path.join(d0, "c%d" % k)
         os.makedirs(d)
         src, dst = os.path.join(d, "s"), os.path.join(d, "t")
-        fsutil.make_file(src, c["size"], [(0, c["size"])], tag=k + 1, sync=False)
+        # every fifth case is a SPARSE file (a hole in the middle, at the end, or nothing but a hole): its data transfer moves
+        # fewer bytes than its length, which says nothing about its metadata
+        holes = [None, "mid", "tail", "all"][(k // 5) % 4] if k % 5 == 4 else None
+        if holes:
+            c["size"] = 262144 + (k % 3)
+            c["holes"] = holes
+            data = {"mid": [(0, 4096), (200000, c["size"])], "tail": [(0, 8192)], "all": []}[holes]
+            fsutil.make_file(src, c["size"], data, tag=k + 1, sync=True)
+            out.count("sparse_source_" + holes)
+        else:
+            fsutil.make_file(src, c["size"], [(0, c["size"])], tag=k + 1, sync=False)
         for a, v in c["xattr"].items():
             os.setxattr(src, a, v)
         os.chown(src, *c["ids"])
